@@ -1,5 +1,63 @@
 """Further translator items, registered per model layer."""
+from srcfacts import Cannot, walk, body_of, strip, member_path, expr_bool, expr_int, const_value
+
+
+def _gvar_int(tu, name):
+    d = tu["gvars"].get(name)
+    if d is None:
+        raise Cannot("global " + name)
+    for n in walk(d):
+        if n.get("kind") == "IntegerLiteral":
+            return int(n["value"])
+    raise Cannot("initialiser of " + name)
+
+
+def _ttl_assignments(tu, fn):
+    """expectation->time_to_live = <constant expression over UNLIMITED_TIME_TO_LIVE>"""
+    res = []
+    for n in walk(body_of(tu["funs"][fn])):
+        if n.get("kind") == "BinaryOperator" and n.get("opcode") == "=":
+            try:
+                base, path = member_path(n["inner"][0])
+            except Cannot:
+                continue
+            if base == "expectation" and path == ["time_to_live"]:
+                try:
+                    res.append(expr_int(n["inner"][1], {"UNLIMITED_TIME_TO_LIVE": "U"}))
+                except Cannot:
+                    res.append(None)
+    return res
+
+
+def _pred_on_ttl(tu, fn):
+    """`return expectation->time_to_live == ...;` as a function of (ttl U)"""
+    for n in walk(body_of(tu["funs"][fn])):
+        if n.get("kind") == "ReturnStmt":
+            return "fun (ttl U : Z) => " + expr_bool(n["inner"][0], {"expectation->time_to_live": "ttl", "UNLIMITED_TIME_TO_LIVE": "U"})
+    raise Cannot("return of " + fn)
+
+
+def _vector_step(tu):
+    for n in walk(body_of(tu["funs"]["increase_space"])):
+        if n.get("kind") == "CompoundAssignOperator" and n.get("opcode") == "+=":
+            base, path = member_path(n["inner"][0])
+            if base == "vector" and path == ["space"]:
+                return "(%s)" % expr_int(n["inner"][1], {})
+    raise Cannot("vector growth step")
 
 
 def register(add, tu, repo, bdir):
-    pass
+    M = lambda: tu("src/mocks.c")
+    add("unlimited_ttl", "Z", lambda: "(%d)" % _gvar_int(M(), "UNLIMITED_TIME_TO_LIVE"), "src/mocks.c:UNLIMITED_TIME_TO_LIVE")
+    add("is_always_src", "Z -> Z -> bool", lambda: _pred_on_ttl(M(), "is_always_call"), "src/mocks.c:is_always_call")
+    add("is_never_src", "Z -> Z -> bool", lambda: _pred_on_ttl(M(), "is_never_call"), "src/mocks.c:is_never_call")
+
+    def first(l):
+        l = [x for x in l if x is not None]
+        if not l:
+            raise Cannot("no constant time_to_live assignment")
+        return "fun (U : Z) => " + l[0]
+    add("ttl_expect_default", "Z -> Z", lambda: first(_ttl_assignments(M(), "expect_")), "src/mocks.c:expect_")
+    add("ttl_always", "Z -> Z", lambda: first(_ttl_assignments(M(), "always_expect_")), "src/mocks.c:always_expect_")
+    add("ttl_never", "Z -> Z", lambda: first(_ttl_assignments(M(), "never_expect_")), "src/mocks.c:never_expect_")
+    add("vector_step", "Z", lambda: _vector_step(tu("src/vector.c")), "src/vector.c:increase_space")
